@@ -55,6 +55,7 @@ func corpusGraph() []*modSpec {
 	return []*modSpec{
 		mk("graph-self-recursive", "package models\n\ntype Tree struct {\n\tChildren []Tree\n\tByName map[string]Tree\n\tPair [2]*Tree\n}\n"),
 		mk("graph-mutual", "package models\n\ntype A struct{ Bs []B }\ntype B struct{ As map[int]A; Self []B }\n"),
+		mk("graph-recursive-containers", "package models\n\ntype Tree map[string]Tree\ntype MA map[string]MB\ntype MB map[int]MA\ntype Nest []Nest\ntype Deep map[string][]Deep\ntype Grid [2]Cells\ntype Cells []Grid\n\ntype S struct {\n\tT Tree\n\tA MA\n\tN Nest\n\tD Deep\n\tG Grid\n}\n"),
 		mk("graph-named-over-named", "package models\n\ntype N1 int\ntype N2 N1\ntype L1 []N2\ntype L2 L1\ntype S struct {\n\tA N2\n\tB L2\n}\n"),
 		mk("graph-time", "package models\n\nimport \"time\"\n\ntype MyDate time.Time\ntype Moment time.Time\ntype UpdateDay MyDate\n\ntype S struct {\n\tT time.Time\n\tD MyDate\n\tM Moment\n\tU UpdateDay\n\tL []time.Time\n}\n"),
 		mk("graph-generic", "package models\n\ntype IdX int64\n\ntype S struct {\n\tA Generic[IdX]\n\tB Generic[int]\n\tC Generic[S2]\n}\n\ntype S2 struct{ V string }\n", modFile{"other.go", "package models\n\ntype Generic[T any] struct {\n\tV T\n\tValid bool\n}\n"}),
@@ -96,6 +97,7 @@ func corpusCrash() []*modSpec {
 		mk("short-subpackage-name", std, "models", "import \"example.com/org/models/ab\"\n\ntype S struct{ V ab.T; L []ab.T }\n", modFile{"ab/ab.go", "package ab\n\ntype T struct{ X int }\n"}),
 		mk("one-letter-subpackage", std, "models", "import \"example.com/org/models/s\"\n\ntype S struct{ V s.T; E s.E }\n", modFile{"s/s.go", "package s\n\ntype T struct{ X int }\ntype E int\nconst (\n\tEA E = iota\n\tEB\n)\n"}),
 		mk("short-package-name", "example.com/org/m", "m", "type U interface{ isU() }\ntype A struct{ X int }\nfunc (A) isU() {}\ntype S struct{ V U; L []int }\n"),
+		mk("recursive-named-containers", std, "models", "type Tree map[string]Tree\ntype MA map[string]MB\ntype MB map[int]MA\ntype Nest []Nest\ntype Deep map[string][]Deep\n\ntype S struct {\n\tT Tree\n\tA MA\n\tN Nest\n\tD Deep\n}\n"),
 		mk("multi-name-const", std, "models", "type K int\n\nconst KA, KB K = 0, 1\n\ntype S struct{ V K }\n"),
 		mk("generic-basic-arg", std, "models", "type S struct {\n\tA Generic[int]\n\tB Generic[string]\n}\n", modFile{"other.go", "package models\n\ntype Generic[T any] struct {\n\tV T\n\tValid bool\n}\n"}),
 		mk("generic-named-arg", std, "models", "type IdX int64\ntype S struct {\n\tA Generic[IdX]\n}\n", modFile{"other.go", "package models\n\ntype Generic[T any] struct {\n\tV T\n\tValid bool\n}\n"}),
